@@ -47,7 +47,9 @@ pub fn gen_g6(seed: u64, cases: usize, out: &mut Out) {
         // orders whose 18-bit header needs more than one byte of value (a few, sparse: the adjacency has ~40000 bits)
         if id % 40 == 7 { n = [255usize, 256, 257, 300, 511, 513][r.below(6)]; dens = 1; }
         let mut es: Vec<(usize, usize)> = Vec::new();
-        for a in 0..n { for b in 0..a { if r.below(100) < dens { es.push((b, a)); } } }
+        // endpoints in either order, edges in any order: the encoding may depend on neither
+        for a in 0..n { for b in 0..a { if r.below(100) < dens { es.push(if r.chance(50) { (b, a) } else { (a, b) }); } } }
+        if r.chance(70) { crate::enc::shuffle(&mut r, &mut es); }
         out.case(id, &[cfg!(debug_assertions) as i64, ty as i64]);
         macro_rules! both {
             ($g:expr, $T:ty) => {{
